@@ -1,6 +1,7 @@
 package main
 
 import (
+	"regexp"
 	"go/token"
 	"strings"
 )
@@ -124,6 +125,8 @@ func init() {
 // C11.setup — construction of a Serializer: on every path NewSerializer runs the one-time initialisation through the
 // Once, selects a compression mode, sets the block limit and returns the new object; initSerializer assigns the shared
 // zstd decoder from zstd.NewReader on every path.
+var reLitLimit = regexp.MustCompile(`^&lit:Serializer\{.*maxBlockSize:([0-9]+)`)
+
 func ruleSerializerSetup(c *Ctx) {
 	p := c.G()
 	if fd := p.Func("NewSerializer"); fd != nil {
@@ -145,7 +148,15 @@ func ruleSerializerSetup(c *Ctx) {
 						limit = true
 					}
 				}
-				if !once || !mode || !limit || len(sp.Ret) != 1 || !strings.HasPrefix(sp.Ret[0].String(), "&L:") {
+				ret := ""
+				if len(sp.Ret) == 1 {
+					ret = sp.Ret[0].String()
+				}
+				// the limit may also be given in the literal the object is created from
+				if m := reLitLimit.FindStringSubmatch(ret); m != nil && m[1] != "0" {
+					limit = true
+				}
+				if !once || !mode || !limit || !(strings.HasPrefix(ret, "&L:") || strings.HasPrefix(ret, "&lit:Serializer{")) {
 					bad = "a path does not (initialise once, select a mode, set the block limit, return the new Serializer)" + condsDesc(sp, 3)
 				}
 			}
